@@ -98,6 +98,7 @@ struct RefMsg {
   std::string why;             // first thing that is wrong (lenient or strict)
   size_t end = 0;              // offset after the last thing read
   int pointers = 0;            // compression pointers seen in located names
+  int max_hops = 0;            // most pointers followed for one single name
   bool cut_in_record = false;  // the datagram ends inside a question / record
   bool qr() const { return (flags & 0x8000) != 0; }
   int opcode() const { return (flags >> 11) & 15; }
@@ -123,7 +124,7 @@ inline RefMsg refParse(const uint8_t *p, size_t n) {
     if (nd.next + 4 > n) { m.why = "question cut off"; m.cut_in_record = true; m.end = pos; return m; }
     RefQ q; q.name = nd.text; q.name_strict = nd.strict; q.type = rd16(p + nd.next); q.klass = rd16(p + nd.next + 2);
     if (!nd.strict) { strict = false; notstrict("question name not RFC-conformant"); }
-    m.pointers += nd.pointers;
+    m.pointers += nd.pointers; m.max_hops = std::max(m.max_hops, nd.pointers);
     m.qs.push_back(q);
     pos = nd.next + 4;
   }
@@ -137,7 +138,7 @@ inline RefMsg refParse(const uint8_t *p, size_t n) {
       r.type = rd16(f); r.klass = rd16(f + 2); r.ttl = rd32(f + 4); r.rdlen = rd16(f + 8); r.rd_at = nd.next + 10;
       if (r.rd_at + r.rdlen > n) { m.why = "record data cut off"; m.cut_in_record = true; m.end = pos; return m; }
       if (!nd.strict) { strict = false; notstrict("owner name not RFC-conformant"); }
-      m.pointers += nd.pointers;
+      m.pointers += nd.pointers; m.max_hops = std::max(m.max_hops, nd.pointers);
       if (r.type == T_A) {
         if (r.rdlen >= 4) { r.has_addr = true; memcpy(r.addr, p + r.rd_at, 4); }
         if (r.rdlen != 4) { strict = false; notstrict("A record whose RDLENGTH is not 4"); }
@@ -145,7 +146,7 @@ inline RefMsg refParse(const uint8_t *p, size_t n) {
         NameDec rn = refName(p, n, r.rd_at);
         if (rn.ok) {
           r.has_name = true; r.rname = rn.text; r.rname_strict = rn.strict; r.rname_fits = rn.next == r.rd_at + r.rdlen;
-          m.pointers += rn.pointers;
+          m.pointers += rn.pointers; m.max_hops = std::max(m.max_hops, rn.pointers);
         }
         if (!rn.ok || !rn.strict || !r.rname_fits) { strict = false; notstrict("CNAME data is not exactly one RFC-conformant name"); }
       }
@@ -202,12 +203,14 @@ inline bool plainAnswerTo(const RefMsg &m, const std::string &qname, const char 
   if (m.opcode() != 0) { *why = "opcode"; return false; }
   if (m.tc()) { *why = "TC set"; return false; }
   if (m.flags & 0x0040) { *why = "Z bit"; return false; }
+  if (m.max_hops > 8) { *why = "a name needs more than 8 pointer hops"; return false; }   // a decoder may cap the hops (all real encoders stay far below)
   if (m.qs.size() != 1 || m.qs[0].type != T_A || m.qs[0].klass != C_IN || lower(m.qs[0].name) != lower(qname)) { *why = "question differs"; return false; }
   std::string cur = lower(qname);
   for (auto &r : m.recs) {
     if (r.sec != SEC_AN) continue;
     if ((r.type == T_A || r.type == T_CNAME) && r.klass != C_IN) { *why = "class"; return false; }
     if (lower(r.owner) != cur) { *why = "owner outside the CNAME chain"; return false; }
+    if ((r.type == T_A || r.type == T_CNAME) && (r.ttl & 0x80000000u)) { *why = "ttl with the top bit set"; return false; }   // RFC 2181 8: may be read as 0
     if (r.type == T_CNAME) cur = lower(r.rname);
   }
   return true;
@@ -220,7 +223,7 @@ inline std::string checkContained(const RefMsg &m, const std::vector<RepA> &as, 
     bool found = false;
     for (size_t i = 0; i < m.recs.size() && !found; ++i) {
       auto &r = m.recs[i];
-      if (used[i] || r.type != T_A || !r.has_addr || memcmp(r.addr, a.ip, 4) != 0 || r.ttl != a.ttl) continue;
+      if (used[i] || r.type != T_A || !r.has_addr || memcmp(r.addr, a.ip, 4) != 0 || (r.ttl != a.ttl && !(r.ttl & 0x80000000u))) continue;
       used[i] = found = true;
     }
     if (!found) {
@@ -236,7 +239,7 @@ inline std::string checkContained(const RefMsg &m, const std::vector<RepA> &as, 
     bool found = false;
     for (size_t i = 0; i < m.recs.size() && !found; ++i) {
       auto &r = m.recs[i];
-      if (used[i] || r.type != T_CNAME || !r.has_name || undot(r.rname) != undot(c.name) || r.ttl != c.ttl) continue;
+      if (used[i] || r.type != T_CNAME || !r.has_name || undot(r.rname) != undot(c.name) || (r.ttl != c.ttl && !(r.ttl & 0x80000000u))) continue;
       used[i] = found = true;
     }
     if (!found) return "reported cname \"" + showBytes(c.name) + "\" (ttl " + std::to_string(c.ttl) + ") is not the name of any CNAME record in the datagram";
